@@ -257,11 +257,45 @@ func defaultToken(owner, field string) token.Token {
 
 // fixup repairs leftovers that would not print: empty literals etc.
 func fixup(n ast.Node) {
+	// functions whose body returns values get a matching result list
+	fixResults := func(ft *ast.FuncType, body *ast.BlockStmt) {
+		if ft == nil || body == nil || ft.Results != nil {
+			return
+		}
+		arity := 0
+		ast.Inspect(body, func(x ast.Node) bool {
+			switch x := x.(type) {
+			case *ast.FuncLit:
+				return false
+			case *ast.ReturnStmt:
+				if len(x.Results) > arity {
+					arity = len(x.Results)
+				}
+			}
+			return true
+		})
+		if arity > 0 {
+			fl := &ast.FieldList{}
+			for k := 0; k < arity; k++ {
+				fl.List = append(fl.List, &ast.Field{Type: &ast.InterfaceType{Methods: &ast.FieldList{}}})
+			}
+			ft.Results = fl
+		}
+	}
+	ast.Inspect(n, func(x ast.Node) bool {
+		switch x := x.(type) {
+		case *ast.FuncDecl:
+			fixResults(x.Type, x.Body)
+		case *ast.FuncLit:
+			fixResults(x.Type, x.Body)
+		}
+		return true
+	})
 	ast.Inspect(n, func(x ast.Node) bool {
 		if bl, ok := x.(*ast.BasicLit); ok && bl.Value == "" {
 			switch bl.Kind {
 			case token.STRING:
-				bl.Value = `"s"`
+				bl.Value = `"s%d%s"`
 			case token.CHAR:
 				bl.Value = `'c'`
 			case token.FLOAT:
@@ -536,10 +570,28 @@ func realise(model map[string]interface{}, spec *lazySpecView, rootPath, categor
 	if err != nil || snippet == "" {
 		return nil, append(r.problems, fmt.Sprintf("cannot print the realised node: %v", err))
 	}
+	// variant: calls whose argument list the explored path never looked at get a
+	// string argument with formatting verbs (text that is harmless as code and
+	// revealing when it is mistaken for a format string)
+	var bodies []string
+	bodies = append(bodies, contexts(category, snippet)...)
+	padded := false
+	ast.Inspect(node.(ast.Node), func(x ast.Node) bool {
+		if c, ok := x.(*ast.CallExpr); ok && len(c.Args) == 0 {
+			c.Args = []ast.Expr{&ast.BasicLit{Kind: token.STRING, Value: `"s%d%s"`}}
+			padded = true
+		}
+		return true
+	})
+	if padded {
+		if s2, err := printNode(node); err == nil && s2 != "" {
+			bodies = append(bodies, contexts(category, s2)...)
+		}
+	}
 	var out []string
 	var notes []string
 	seen := map[string]bool{}
-	for _, body := range contexts(category, snippet) {
+	for _, body := range bodies {
 		base := "package cand\n\n" + body
 		f, err := parser.ParseFile(token.NewFileSet(), "cand.go", base, parser.ParseComments)
 		if err != nil {
